@@ -144,6 +144,7 @@ class Model:
         self._by_name: Dict[str, List[str]] = {}
         for q, f in self.funcs.items():
             self._by_name.setdefault(f.name, []).append(q)
+        self.shared_default_slots: Dict[str, List[Tuple[str, str, int]]] = {}
         self._check_reflection_inventory()
 
     # ------------------------------------------------------------------ defs
@@ -495,6 +496,19 @@ class Model:
             return out
         if isinstance(v, (ast.List, ast.Tuple)):
             return [self.lit(cl.mod, e) for e in v.elts]
+        # {name: type(obj) for name, obj in MODULE_DICT.items()}: classes of the instances of a module-level dict(...)
+        if isinstance(v, ast.DictComp) and len(v.generators) == 1 and isinstance(v.generators[0].iter, ast.Call) and \
+                isinstance(v.generators[0].iter.func, ast.Attribute) and v.generators[0].iter.func.attr == "items" and \
+                isinstance(v.generators[0].iter.func.value, ast.Name) and isinstance(v.generators[0].target, ast.Tuple) and \
+                isinstance(v.value, ast.Call) and isinstance(v.value.func, ast.Name) and v.value.func.id == "type":
+            r0 = self.resolve(cl.mod, v.generators[0].iter.func.value.id)
+            node0 = r0[1][1] if r0 and r0[0] == "const" else None
+            if isinstance(node0, ast.Call) and isinstance(node0.func, ast.Name) and node0.func.id == "dict":
+                out = {}
+                for kw in node0.keywords:
+                    if isinstance(kw.value, ast.Call):
+                        out[kw.arg] = kw.value.func
+                return out
         # list(Other._props) / [*Other._props] / sorted(Other._props): the key names of another class's table
         if isinstance(v, ast.Call) and isinstance(v.func, ast.Name) and v.func.id in ("list", "tuple", "sorted") and \
                 len(v.args) == 1 and isinstance(v.args[0], ast.Attribute) and v.args[0].attr == "_props":
@@ -626,7 +640,19 @@ class Model:
                                  for kk, vv in zip(body.keys, body.values)]
                     else:
                         raise AnalysisError(f"{k}.objs: default_factory is not a dict literal")
+                    expanded = []
                     for name, val in items:
+                        if name is None and isinstance(val, ast.Name):
+                            # **MODULE_LEVEL_DICT: the same list instances are handed to every chart
+                            r0 = self.resolve(self.classes[k].mod, val.id)
+                            node0 = r0[1][1] if r0 and r0[0] == "const" else None
+                            if isinstance(node0, ast.Call) and isinstance(node0.func, ast.Name) and node0.func.id == "dict":
+                                for kw in node0.keywords:
+                                    expanded.append((kw.arg, kw.value))
+                                    self.shared_default_slots.setdefault(k, []).append((kw.arg, val.id, val.lineno))
+                                continue
+                        expanded.append((name, val))
+                    for name, val in expanded:
                         if name is None or not isinstance(val, ast.Call):
                             raise AnalysisError(f"{k}.objs: unsupported entry")
                         r = self.resolve_expr(self.classes[k].mod, val.func)
